@@ -7,17 +7,28 @@ CfgNilBuf == {[stdin |-> "nil", outs |-> "buf"]}
 CfgNilNil == {[stdin |-> "nil", outs |-> "nil"]}
 CfgRdBuf == {[stdin |-> "reader", outs |-> "buf"]}
 CfgRdNil == {[stdin |-> "reader", outs |-> "nil"]}
+CfgsA == CfgNilBuf \cup CfgRdNil
+CfgsB == CfgNilNil \cup CfgRdBuf
 CfgBufs == {[stdin |-> a, outs |-> "buf"] : a \in {"nil", "reader"}}
 
 FinalInfo(s) == LET f == Final(s) IN
   [done |-> {<<c, f.calls[c].res>> : c \in {x \in 1 .. Len(s.calls) : s.calls[x].st # "done"}},
    pending |-> {c \in 1 .. Len(f.calls) : f.calls[c].st # "done"},
-   go |-> f.gotOut, ge |-> f.gotErr, ka |-> f.ka]
+   go |-> f.gotOut, ge |-> f.gotErr, ka |-> IF s.closed THEN "" ELSE f.ka,
+   race |-> IF s.closed THEN FALSE ELSE f.ioRace]
 
 \* generator "one test per model transition" (see SSHMux_MC): the view hides step observables, counters and ghosts
-AbsView == [S EXCEPT !.last = Ev("", "", 0), !.out = <<>>, !.done = {}, !.ka = "", !.ns = 0, !.nc = 0,
-                     !.exits = <<>>, !.nStartOk = 0, !.sentOut = <<>>, !.sentErr = <<>>,
-                     !.calls = [c \in 1 .. Len(S.calls) |-> IF S.calls[c].st = "done" THEN [k |-> "", st |-> "done", res |-> NoRes] ELSE S.calls[c]]]
+\* Calls are replaced by what matters for the future (kind of the pending request, whether a Wait is blocked, whose buffer
+\* s.Stdout is), token sequences by their lengths.
+OwnerAbs(w) == IF w <= 0 THEN w ELSE IF w = S.waiter \/ w = S.reqWaiter THEN 2 ELSE 1
+AbsView == [S EXCEPT !.last = Ev("", "", 0), !.out = <<>>, !.done = {}, !.ka = "", !.ioRace = FALSE, !.ns = 0, !.nc = 0,
+                     !.exits = <<>>, !.nStartOk = 0, !.sentOut = <<>>, !.sentErr = <<>>, !.nTok = 0,
+                     !.calls = IF S.calls = <<>> THEN 0 ELSE 1,
+                     !.reqWaiter = IF S.reqWaiter = 0 THEN "" ELSE S.calls[S.reqWaiter].k,
+                     !.waiter = IF S.waiter = 0 THEN 0 ELSE 1,
+                     !.outW = OwnerAbs(S.outW), !.errW = OwnerAbs(S.errW),
+                     !.bufOut = Len(S.bufOut), !.bufErr = Len(S.bufErr), !.gotOut = Len(S.gotOut), !.gotErr = Len(S.gotErr),
+                     !.srvIn = Len(S.srvIn), !.wres = IF S.waiter = 0 THEN NoRes ELSE S.wres]
 Line(s, h) == PrintT("TRACE " \o ToJson([cfg |-> s.cfg, steps |-> h, final |-> FinalInfo(s)]))
 GSrv == /\ S.ns < MaxSrv
         /\ \E e \in SrvEvents(S) : S' = SrvStep(S, e) /\ hist' = Append(hist, Obs(S')) /\ Line(S', hist')
@@ -25,6 +36,9 @@ GCli == /\ S.nc < MaxCli
         /\ \E e \in CliEvents(S) : S' = CliStep(S, e) /\ hist' = Append(hist, Obs(S')) /\ Line(S', hist')
 GenSpec == Init /\ [][GSrv \/ GCli]_<<S, hist>>
 
+\* simulation: every history that reached the server bound or the end of the channel
+EmitEnd == ((S.ns = MaxSrv \/ S.closed) /\ S.last.k # "") =>
+              PrintT("TRACE " \o ToJson([cfg |-> S.cfg, steps |-> hist, final |-> FinalInfo(S)]))
 \* only complete histories (simulation)
 EmitLeaf == ((S.ns = MaxSrv \/ S.closed) /\ S.nc = MaxCli) =>
               PrintT("TRACE " \o ToJson([cfg |-> S.cfg, steps |-> hist, final |-> FinalInfo(S)]))
